@@ -34,6 +34,12 @@ def fam_core(seed, i):
         cnt = [0]
         for c in kinds:
             sc["clients"][c] = Prog(rng, c, handles.get(c, {}), w, [[], [], [Y]], cnt).run(rng.randint(8, 11))
+        if cfg["cap"] >= 0 and rng.random() < 0.6:
+            # a stop arrives while senders are waiting for room, and stopped() takes its time: they are let go when
+            # the actor has terminated, not before
+            cfg["pscr"] = [Y, Y]
+            sc["clients"]["main"].append({"op": "clone", "h": "h0", "nh": "h_cz", "to": "cz"})
+            sc["clients"]["cz"] = [{"op": "yield"}] * rng.randint(1, 3) + [{"op": "stop", "h": "h_cz"}, {"op": "yield"}, {"op": "stopped", "h": "h_cz"}]
         return sc
     if rng.random() < 0.08 and cfg["cap"] >= 0:
         # a handler that naps for seconds of virtual time while senders wait for room: however long it takes, a send
